@@ -129,10 +129,19 @@ def run_load(repo, n, width, rpc, indexers, gap=0, type_code="IU2"):
     return loads[0], ranges, content
 
 
-def run_loads(repo, n, width, rpc, sequence, gap=0, type_code="IU2"):
+def run_load_with_fault(repo, n, width, rpc, indexers, at, gap=0, type_code="IU2"):
+    """one load during which the request number ``at`` (0-based, counted over the whole load) fails once with a connection reset
+    -> (Load, ranges, content); Load.fault['fired'] tells whether the load got that far"""
+    loads, ranges, content = run_loads(repo, n, width, rpc, [indexers], gap, type_code, fault={"kind": "read", "at": at})
+    return loads[0], ranges, content
+
+
+def run_loads(repo, n, width, rpc, sequence, gap=0, type_code="IU2", fault=None):
     """a sequence of loads on ONE Array instance -> ([Load], ranges, content)"""
     content, ranges = image_bytes(n, width, gap)
     cur = {"load": Load()}
+    if fault is not None:
+        cur["load"].fault = fault
     load = _Proxy(cur)
     out = []
     built = _build(repo, load, content, ranges, n, width, rpc, type_code)
@@ -220,6 +229,10 @@ class _TraceProxy:
     @property
     def allocations(self):
         return self._load.trace.allocations
+
+    @property
+    def fault(self):
+        return getattr(self._load, "fault", None)
 
 
 def judge(load, ranges, content, n, rpc, indexers):
